@@ -136,6 +136,7 @@ def spaces(tier, variant, seed):
         return gen
 
     cur = {"cfg": None}
+    BASECFG = "floor" if variant == "rt" else "pin"
 
     def set_cfg(cfg):
         if cfg != cur["cfg"]:
@@ -363,6 +364,7 @@ def spaces(tier, variant, seed):
                 yield (op, n, a, l, 1)
 
     def m1_one(case, R):
+        set_cfg(BASECFG)
         op, n, a, l, ip = case
         cls, ref = mo.REF[op]
         if cls == "l1a":
@@ -409,6 +411,7 @@ def spaces(tier, variant, seed):
                 yield (a, b, 4, 1)
 
     def zm_one(case, R):
+        set_cfg(BASECFG)
         a, b, mode, alc = case
         w, u, v = zs()
         e = a * (b if mode < 3 else a)
@@ -465,6 +468,7 @@ def spaces(tier, variant, seed):
                 yield ("mul_si", a, l, ip)
 
     def zu_one(case, R):
+        set_cfg(BASECFG)
         op, a, l, ip = case
         w, u, v = zs()
         u.set(a)
@@ -515,6 +519,7 @@ def spaces(tier, variant, seed):
                     yield (op, -a * l + 1, a, l, 0)
 
     def za_one(case, R):
+        set_cfg(BASECFG)
         op, w0, a, b, mode = case
         w, u, v = zs()
         w.set(w0)
